@@ -19,6 +19,12 @@ type MetaData struct {
 
 // CopyNew returns a copy of the target.
 func (m MetaData) CopyNew() *MetaData {
+	// The scale holds a big.Float and a *big.Int, whose internal
+	// storage would otherwise be shared with the receiver.
+	m.Scale.Value = *new(big.Float).Copy(&m.Scale.Value)
+	if m.Scale.Mod != nil {
+		m.Scale.Mod = new(big.Int).Set(m.Scale.Mod)
+	}
 	return &m
 }
 
